@@ -18,6 +18,7 @@
   bookkeeping after reading some runes, the number of newline runes among them; `Gap` — white space
   and whole comments; `runForms` — top-level forms fed one by one to `EVAL`.
 -/
+import LispModel.Proofs.PositionLaws
 import LispModel.Proofs.Positions
 import LispModel.Proofs.LayoutFull
 import LispModel.Util
@@ -296,5 +297,67 @@ theorem module_header_ignored_example :
     (readModuleIs { module := some "m" } (bytes% ";; $MODULE other.lisp\n(f [x] y)") (some "m") &&
      !readModuleIs { module := some "m" } (bytes% ";; $MODULE other.lisp\n(f [x] y)") (some "other.lisp")) = true :=
   Proofs.SeedLaws.C17.module_header_ignored_example
+
+
+/-! ## the position algebra of types/positiontype.go (model: LispModel/Position.lean, engine posalg)
+
+What "lies within" and "covers" mean for the positions the property talks about, proved for the mirror of
+`Includes / Close / Here / Copy / String…` and tied to the real methods (and to the cursors `reader.Read_str` builds,
+all four coordinates) by engine `posalg`. -/
+
+open LispModel.Position in
+/-- `Includes` is exactly lexicographic containment of the two end points -/
+theorem includes_is_span_containment (p q : Pos) :
+    includes (some p) q = true ↔
+      le2 p.beginRow p.beginCol q.beginRow q.beginCol ∧ le2 q.row q.col p.row p.col := includes_iff p q
+
+open LispModel.Position in
+theorem includes_reflexive (p : Pos) : includes (some p) p = true := includes_refl p
+
+open LispModel.Position in
+theorem includes_transitive {p q r : Pos} (h₁ : includes (some p) q = true) (h₂ : includes (some q) r = true) :
+    includes (some p) r = true := includes_trans h₁ h₂
+
+open LispModel.Position in
+/-- containment gives the row statement of the property: begins no later, ends no earlier -/
+theorem includes_gives_rows {p q : Pos} (h : includes (some p) q = true) :
+    p.beginRow ≤ q.beginRow ∧ q.row ≤ p.row := includes_rows h
+
+open LispModel.Position in
+/-- the cursor `read_list` builds (`opening.Close(closer)`) contains every token between its brackets -/
+theorem list_cursor_contains_inner_tokens (opn closer x r : Pos) (hc : close (some opn) (some closer) = .ok r)
+    (hb : le2 opn.beginRow opn.beginCol x.beginRow x.beginCol) (he : le2 x.row x.col closer.row closer.col) :
+    includes (some r) x = true := close_includes opn closer x r hc hb he
+
+open LispModel.Position in
+/-- a reader macro's list cursor is the macro token alone (`tok.Copy().Close(&tok) = tok`): it names the line the
+    macro form STARTS on — which is what the property asks of a position — not the extent of its operand -/
+theorem reader_macro_cursor_is_its_token (c : Pos) : close (copy (some c)) (some c) = .ok c := close_self c
+
+open LispModel.Position in
+/-- module of a re-based cursor: the argument's when it has one, else the receiver's -/
+theorem here_inherits_module (p h : Pos) :
+    ∃ r, here (some p) (some h) = .ok r ∧
+      r.module = (match h.module with | some m => some m | none => p.module) ∧
+      r.beginRow = h.beginRow ∧ r.beginCol = h.beginCol ∧ r.row = h.row ∧ r.col = h.col :=
+  here_module_inheritance p h
+
+open LispModel.Position in
+/-- the printed position determines the four coordinates (for rows ≥ 0; below 0 the text is empty) -/
+theorem position_text_determines_coordinates (p q : Pos) (hp : 0 ≤ p.row) (hq : 0 ≤ q.row)
+    (h : stringPosition (some p) = stringPosition (some q)) :
+    p.beginRow = q.beginRow ∧ p.row = q.row ∧ p.beginCol = q.beginCol ∧ p.col = q.col :=
+  stringPosition_inj p q hp hq h
+
+open LispModel.Position in
+/-- exactly which calls of the pointer methods can panic: a nil argument, or a nil receiver of `Close` / of `Here`
+    with a module-less argument; with non-nil pointers none does -/
+theorem position_methods_panic_exactly_on_nil (p h : Cur) :
+    (here p h = .panic ↔ h = none ∨ (p = none ∧ ∃ h', h = some h' ∧ h'.module = none)) ∧
+    (close p h = .panic ↔ p = none ∨ h = none) := ⟨here_panics_iff p h, close_panics_iff p h⟩
+
+open LispModel.Position in
+example : includes (some { beginRow := 1, beginCol := 2, row := 3, col := 9 }) { beginRow := 2, beginCol := 1, row := 2, col := 30 } = true ∧
+    includes (some { beginRow := 2, beginCol := 1, row := 2, col := 30 }) { beginRow := 1, beginCol := 2, row := 3, col := 9 } = false := by decide
 
 end LispModel.Props.C17
